@@ -41,7 +41,7 @@ CHECKS = {
    "Seeded chains of origin, 0-4 witnesses and a final reader; every Open is compared with the documented semantics computed independently (accept/reject, text, verified/unverified partition, UnverifiedNoteError content, each verified signature backed by a recorded Verify call over the returned text), every Sign with the exact documented bytes.",
    "Trusts Ed25519 and the reference parser. Repeated signature lines of one known key: only the first is verified, as the package documents.", "4 (C07)"),
  "C09": ("sumdbsim", "deterministic simulation of a log store built only from tlog.StoredHashes with failing store reads, compared after every append with a reference RFC 6962 tree; virtual uniform logs for sizes beyond memory",
-   "Seeded append histories (1-120, thorough 2000 records; texts with Unicode, U+FFFD, buffer-boundary lengths) with store read faults at random appends; after each append store length, coordinates of every new position, every stored hash and TreeHash(m) for all m (<=128) are checked against the reference; coordinates up to 2^60 records and a virtual log up to 2^44 records cover index arithmetic beyond 32 bits; text encodings round-trip.",
+   "Seeded append histories (1-120, thorough 2000 records; texts with Unicode, U+FFFD, buffer-boundary lengths) with store read faults at random appends; after each append store length, coordinates of every new position, every stored hash and TreeHash(m) for all m (<=128) are checked against the reference; coordinates up to 2^60 records and a virtual log up to 2^44 records cover index arithmetic beyond 32 bits; text encodings round-trip. Every third run interleaves 2-4 logs of one process at the HashReader seam (whole operations of other logs run while one is parked inside its read, some after failed reads).",
    "The layout laws are pure relations; the only injectable fault is the HashReader seam. Trusts SHA-256 and sim/ref.", "4 (C09)"),
  "C01": ("sumdbsim", "deterministic simulation with fault injection: real sumdb.Client against a simulated faulty network, cache and config under a tape-driven scheduler with crash-restart; reference RFC 6962/signed-note oracles at every seam",
    "Seeded search over tree shapes, tile heights, 0-3 faults of 20 network kinds + disk/config faults on any response class, concurrent clients, crash-restarts and log growth, plus a systematic placement of each network fault kind on each of the first 8 responses of a lookup for small logs; oracles evaluated at every Lookup return, WriteCache and WriteConfig, then a heal phase checks bounded liveness on the surviving durable state.",
